@@ -127,3 +127,14 @@ REASON_PROP["conversion on an undefined or non-FSR signal"] = "C10"
 for _r in ("stored summaries differ between omission on and off", "the first block of a signal was omitted",
            "omitted blocks differ from the documented one-block delay"):
     REASON_PROP[_r] = "C15"
+for _r in ("statistics request inside the signal failed", "wrong number of statistics entries",
+           "statistics are NaN although the window has no gap", "min is not the minimum of the window",
+           "max is not the maximum of the window", "mean is not the mean of the window", "std is not a number",
+           "std exceeds the sample standard deviation of the window",
+           "std is below sqrt((d-1)/d) of the sample standard deviation",
+           "an entry is outside the extremes of its widened window",
+           "the average of the entries' means is not the mean of the range"):
+    REASON_PROP[_r] = "C02"
+for _r in ("statistics of an undefined or non-FSR signal", "statistics with a non-positive increment succeeded",
+           "statistics outside the signal succeeded"):
+    REASON_PROP[_r] = "C10"
